@@ -299,8 +299,18 @@ type cliRes struct {
 	out, err string
 }
 
+// runCue runs the cue binary; rc 98 = the process was killed by the time limit
+// (an overloaded machine), tried twice.
 func runCue(cueBin, dir string, args ...string) cliRes {
-	cctx, cancel := context.WithTimeout(context.Background(), 60*time.Second)
+	r := runCue1(cueBin, dir, args...)
+	if r.rc == 98 {
+		r = runCue1(cueBin, dir, args...)
+	}
+	return r
+}
+
+func runCue1(cueBin, dir string, args ...string) cliRes {
+	cctx, cancel := context.WithTimeout(context.Background(), 240*time.Second)
 	defer cancel()
 	cmd := exec.CommandContext(cctx, cueBin, args...)
 	cmd.Dir = dir
@@ -315,6 +325,9 @@ func runCue(cueBin, dir string, args ...string) cliRes {
 			rc = ee.ExitCode()
 		} else {
 			rc = 99
+		}
+		if cctx.Err() != nil || rc < 0 {
+			rc = 98
 		}
 	}
 	return cliRes{rc, so.String(), se.String()}
